@@ -17,6 +17,35 @@ type cblock struct {
 	k   int     // compressed length on this path
 }
 
+// sameBlock finds an earlier block of the same algorithm over term-wise identical input: the block compressors are
+// deterministic functions of their input, so compressing the same bytes twice yields the same block.
+func (x *Exec) sameBlock(alg string, src []*Term) (*cblock, string) {
+	for name, b := range x.blocks {
+		if b.alg != alg || len(b.src) != len(src) {
+			continue
+		}
+		same := true
+		for i := range src {
+			if b.src[i] != src[i] {
+				same = false
+				break
+			}
+		}
+		if same {
+			return b, name
+		}
+	}
+	return nil, ""
+}
+
+func (x *Exec) blockBytes(name string, k int) []*Term {
+	out := make([]*Term, k)
+	for i := range out {
+		out[i] = x.ctx.App(name, 8, x.ctx.BV(uint64(i), 16))
+	}
+	return out
+}
+
 func (x *Exec) newBlock(alg string, src []*Term, k int) (*cblock, []*Term) {
 	x.blockSeq++
 	b := &cblock{id: x.blockSeq, alg: alg, src: src, k: k}
@@ -91,8 +120,14 @@ func registerCompress(e *Engine) {
 			x.store(&dst.C[0], x.ctx.BV(0, 8))
 			return Tuple{x.intTerm(1), Iface{}}
 		}
-		k := x.compressedLen(n, lo, hi)
-		_, bs := x.newBlock("lz4", sliceBytes(src), k)
+		var bs []*Term
+		if b, name := x.sameBlock("lz4", sliceBytes(src)); b != nil {
+			bs = x.blockBytes(name, b.k)
+		} else {
+			k := x.compressedLen(n, lo, hi)
+			_, bs = x.newBlock("lz4", sliceBytes(src), k)
+		}
+		k := len(bs)
 		for i := range bs {
 			x.store(&dst.C[i], bs[i])
 		}
@@ -138,6 +173,9 @@ func registerCompress(e *Engine) {
 			lo++
 		}
 		hi := 32 + n + n/6 // snappy.MaxEncodedLen
+		if b, name := x.sameBlock("snappy", sliceBytes(src)); b != nil {
+			return x.bytesToSlice(x.blockBytes(name, b.k), "snappy.Encode")
+		}
 		k := x.compressedLen(n, lo, hi)
 		_, bs := x.newBlock("snappy", sliceBytes(src), k)
 		return x.bytesToSlice(bs, "snappy.Encode")
